@@ -392,6 +392,7 @@ def main(argv):
             violations.append((f"{sub_name}:{fail['facet']}", path, fail["detail"]))
 
     # ---- known findings: re-run their replay files
+    stale_known = []
     for f in open_findings(prop_id):
         rp = f.get("replay")
         if not rp:
@@ -406,6 +407,10 @@ def main(argv):
             known_lines.append((f["id"], f.get("what", info[1].facet)))
         elif res == "violation":
             violations.append((f"known-finding-replay-changed:{info.facet}", rp, info.detail))
+        else:
+            # the demonstration no longer reproduces (fixed upstream, or filtered out by the check): nothing is suppressed for it, say so
+            stale_known.append(f"{f['id']}: replay {rp} -> {res}")
+            print(f"NOTE: known finding {f['id']} does not reproduce from {rp} ({res}); the entry should be reviewed", file=sys.stderr)
 
     # ---- evidence
     total_eval = sum(m["evaluations"] for m in merged.values()) + int(extra_cov.get("evaluations", 0))
@@ -445,6 +450,7 @@ def main(argv):
             "subcheck_descriptions": about,
             "replayed_regression_cases": n_replayed,
             "known_findings_reported": [k for k, _ in known_lines],
+            "known_findings_not_reproduced": stale_known,
             "violations_reported": [{"facet": f, "replay": p, "detail": d[:500]} for f, p, d in violations],
             "harness_errors": len(harness_errors),
             "exhaustive": bool(extra_cov.get("exhaustive", False)),
